@@ -29,14 +29,28 @@
 //! MUST ensure no duplicate keys / NOT NULL / types": batches with a row that INSERT rejects are
 //! outside its contract and not judged (counted `out-of-contract`).
 //!
+//! Reopen and the row-id counter.  The database-wide row-id counter restarts at 1 on every open
+//! (KF-C04-01), so after a reopen an INSERT into a table that holds rows fails with the B-tree message
+//! "key already exists" (one id burnt per attempt).  So that twin B really holds "the rows inserted one
+//! by one", histories with a reopen repeat an INSERT statement (on both twins) and a row-at-a-time API
+//! call (the same code path) over exactly that message; whole-batch API calls are never repeated.
+//!
+//! Second look.  When a history diverges at a step that is a recorded step-level defect of the API
+//! (DELETE after insert_batch; any INSERT statement after bulk_insert) the same case is run once more
+//! with those steps left out (`skip`), so that the steps behind them are compared too.
+//!
 //! Enumeration (simplest first, `ctx.mine(i)` on the case number): EVERY sequence of <= L rows over
 //! the row alphabet {(1,10),(2,20),(2,21),(NULL,30),(1,NULL)} (duplicate keys inside the batch, with
-//! the pre rows, NULL key, NULL value) x pre x table kind x API; then generated batches of the sizes
-//! {0,1,2,63,64,65,700[,5000]} in sequential / reverse / duplicate-bearing order (keys 1001..).
+//! the pre rows, NULL key, NULL value) x placement x table kind x API (L = 1 quick / 3 thorough; one
+//! row more without the dimensions that repeat a covered code path: reopening placements, BIGINT key,
+//! schema table, insert_batch_into_schema = the body of insert_batch); then generated batches of the
+//! sizes {0,1,2,63,64,65,700[,5000]} in sequential / reverse / duplicate-bearing order (keys 1001..).
 //!
-//! Signature = C43/<api>/<table kind>/<shape of the MINIMAL case>/<layer>; the minimal case is found
-//! by delta-debugging (drop batch rows / next smaller size / simpler order / simpler pre, while the
-//! same layer fails at the same step) and IS the recorded case.
+//! Signature = C43/<api>/<table kind>/<placement>:<batch class>[@<step>]/<layer> of the MINIMAL case
+//! (placement fresh|after-dml|after-reopen|after-reopen-rows; class = first of empty, null-key,
+//! dup-in-batch, dup-with-existing, null-value, plain, or <order>-size>=N); the minimal case is found
+//! by delta-debugging (drop batch rows / simpler row / next smaller size / simpler order / simpler
+//! placement, while the same layer fails at the same step) and IS the recorded case.
 use checks::sqlh::*;
 use refmodel::val::{bag, show_rows, Row, V};
 use std::collections::BTreeMap;
@@ -456,8 +470,8 @@ enum Plant {
     None,
     /// after the bulk step twin A deletes the row with the largest key of the batch (api prepared-execute, kind plain)
     LoseRow,
-    /// after the bulk step on a secondary-index table twin A drops the index entry effect: updates k of one row
-    /// through SQL without… (simulated: twin A's lookups of key 2 return nothing) — observation-level plant
+    /// observation-level plant: after a bulk step that loaded key 2 (api prepared-execute, kind plain) twin A's
+    /// lookups `WHERE k = 2` return nothing
     HideLookup,
 }
 impl Plant {
@@ -660,7 +674,7 @@ impl Twins {
                     self.planted = true;
                 }
             }
-            Plant::HideLookup if self.api == Api::Prepared && self.kind == Kind::SecIdx && rows.iter().any(|r| r.0 == Some(2)) => {
+            Plant::HideLookup if self.api == Api::Prepared && self.kind == Kind::Plain && rows.iter().any(|r| r.0 == Some(2)) => {
                 self.planted = true;
             }
             _ => {}
